@@ -1,5 +1,6 @@
 import NA.Proofs.VpnGraphFinal
 import NA.Proofs.VpnGraphRefs
+import NA.Proofs.VpnGraphFuel
 /-!
 # Named object graphs of the ASA backend (fragment G): usernames, address-named tunnel-groups, group-policies,
 access-lists kept or replaced as a whole, ip local pools, aaa-servers
@@ -13,15 +14,45 @@ namespace NA.Vpn.G
 
 /-! ## C08: the clean-up deletes nothing that is still referenced -/
 
-/-- **`deleteUnused` is accepted by the strict device**: pending deletions that exist in the shape their command
-names and are referenced by nothing but pending deletions are removed in an order in which every
-`clear configure …` / `no ip local pool …` finds its object unreferenced (referenced-last rounds); objects that
-are not pending keep their definition. -/
-theorem graph_cleanup_accepted (f : Nat) (objs : List DelObj) (d : Dev)
+/-- **`deleteUnused` is accepted by the strict device and removes what it set out to remove.**
+`objs`: the pending deletions — pairwise different objects that exist on the device in the shape their command names (`hs`),
+referenced on the device by nothing but pending deletions (`hr`), without reference cycles among them (`hrk`: references go
+to strictly lower `rank`; in fragment G the rank `rk` of the kind).  With at least as many rounds as pending objects (`hf`;
+`deleteUnused` runs `objs.length + 1`, the Go loop runs until the list is empty)
+  * every `clear configure …` / `no ip local pool …` finds its object unreferenced (referenced-last rounds): the whole list is accepted,
+  * objects that are not pending keep their definition,
+  * **every pending object is gone afterwards**.
+(The statement is not trivial for `f = 0`: then `objs` is empty.  Without `hrk` two pending objects that reference each other
+would never be deleted: every round would be empty.) -/
+theorem graph_cleanup_accepted (rank : Ref → Nat) (f : Nat) (objs : List DelObj) (d : Dev)
     (hn : objs.Pairwise (fun p q => p.id ≠ q.id)) (hs : ∀ p ∈ objs, Shape d p)
-    (hr : ∀ p ∈ objs, ∀ x ∈ d.objs, x.refs.contains p.id = true → ∃ q ∈ objs, q.id = x.id ∧ q.refs = x.refs) :
-    ∃ d', execAll d (delRounds f objs) = some d' ∧ ∀ r, (∀ p ∈ objs, p.id ≠ r) → d'.obj r = d.obj r :=
-  delRounds_accepted f objs d hn hs hr
+    (hr : ∀ p ∈ objs, ∀ x ∈ d.objs, x.refs.contains p.id = true → ∃ q ∈ objs, q.id = x.id ∧ q.refs = x.refs)
+    (hrk : ∀ p ∈ objs, ∀ q ∈ objs, p.refs.contains q.id = true → rank q.id < rank p.id)
+    (hf : objs.length ≤ f) :
+    ∃ d', execAll d (delRounds f objs) = some d' ∧ (∀ r, (∀ p ∈ objs, p.id ≠ r) → d'.obj r = d.obj r) ∧
+      ∀ p ∈ objs, d'.obj p.id = none :=
+  delRounds_removes rank f objs d hn hs hr hrk hf
+
+/-- the number of rounds `deleteUnused` runs is enough -/
+theorem deleteUnused_rounds (st : St) :
+    (deleteUnused st).out = (if !(pendingDel st).isEmpty && st.mode.isSome then st.out ++ [.exit] else st.out) ++
+      delRounds ((pendingDel st).length + 1) (pendingDel st) := by
+  unfold deleteUnused
+  dsimp only
+  split <;> rfl
+
+/-- **The recursion bound of the model is no restriction.**  `addAny`, `diffAny`, `markDel`, `stillReferenced` and the
+content view recurse along references; the Go code does so without a bound, the model with `fuel` = 4.  For configurations
+whose references go to kinds of strictly lower rank (`Ranked`: what the command templates enforce — username /
+tunnel-group → group-policy / aaa-server → access-list / pool; part of `WF`, checked by `wfB` on every generated case) a chain
+of references has at most three objects and EVERY bound from 3 on gives the same state, change list and views. -/
+theorem graph_fuel_suffices (a b : List Obj) (hra : Ranked a) (hrb : Ranked b) (f : Nat) (hf : 3 ≤ f) :
+    runF f a b = run a b ∧ engineF f a b = engine a b ∧ viewF f a = view a ∧ viewF f b = view b := by
+  have h := runF_eq a b hra hrb f fuel hf (by decide)
+  refine ⟨h, ?_, viewF_eq a hra f fuel hf (by decide), viewF_eq b hrb f fuel hf (by decide)⟩
+  unfold engineF
+  rw [h]
+  rfl
 
 /-- **Create-before-reference**: for well-formed graphs (decidable: `wfB`, `kindByKeyB`) every added sub-command of the
 part before `deleteUnused` that carries a reference names an object that exists at that point (on the device from the start
@@ -136,8 +167,37 @@ example : delRounds 4 [
     { id := (.user, "u"), lines := [.clear .user "u"], refs := [(.gp, "g")] }] =
   [.clear .user "u", .clear .gp "g", .clear .acl "a"] := by decide
 
+/-- the same three objects on a device: the clean-up is accepted and they are gone (instance of `graph_cleanup_accepted`) -/
+example : (execAll { objs := [
+      { kind := .acl, name := "a", lines := ["permit"] },
+      { kind := .gp, name := "g", secs := [{ head := "internal" }, { head := "attributes", mode := true, subs := [sRef "vpn-filter value" .acl "a"] }] },
+      { kind := .user, name := "u", anchor := true, secs := [{ head := "nopassword" }, { head := "attributes", mode := true, subs := [sRef "vpn-group-policy" .gp "g"] }] }] }
+    (delRounds 3 [
+      { id := (.acl, "a"), lines := [.clear .acl "a"], refs := [] },
+      { id := (.gp, "g"), lines := [.clear .gp "g"], refs := [(.acl, "a")] },
+      { id := (.user, "u"), lines := [.clear .user "u"], refs := [(.gp, "g")] }])).map (·.objs.length) = some 0 := by decide
+
+/-- two pending objects that reference each other are never deleted: `hrk` of `graph_cleanup_accepted` is needed -/
+example : delRounds 5 [
+    { id := (.gp, "g"), lines := [.clear .gp "g"], refs := [(.gp, "h")] },
+    { id := (.gp, "h"), lines := [.clear .gp "h"], refs := [(.gp, "g")] }] = [] := by decide
+
+/-- the examples are ranked … -/
+example : Ranked exA ∧ Ranked exB := ranked_of_WF (wf_of_wfB exA exB (by decide))
+
+/-- … and for a configuration that is NOT ranked (group-policies nested five deep: no ASA configuration) the bound matters -/
+def gpChain : List Obj :=
+  ({ kind := .user, name := "u", anchor := true, secs := [{ head := "nopassword" },
+      { head := "attributes", mode := true, subs := [sRef "vpn-group-policy" .gp "g1"] }] } : Obj) ::
+  (([1, 2, 3, 4] : List Nat).map fun i =>
+    ({ kind := .gp, name := "g" ++ toString i, secs := [{ head := "internal" },
+      { head := "attributes", mode := true, subs := [sRef "nested" .gp ("g" ++ toString (i + 1))] }] } : Obj)) ++
+  [{ kind := .gp, name := "g5", secs := [{ head := "internal" }] }]
+
+example : ((engineF 4 [] gpChain).map (·.length), (engineF 9 [] gpChain).map (·.length)) = (some 12, some 16) := by decide
+
 def obligations : List Lean.Name := [
-  ``graph_cleanup_accepted, ``graph_refs_created_first, ``graph_exec_frame, ``graph_body_targets, ``graph_unmanaged_untouched,
+  ``graph_fuel_suffices, ``graph_cleanup_accepted, ``graph_refs_created_first, ``graph_exec_frame, ``graph_body_targets, ``graph_unmanaged_untouched,
   ``graph_untagged_not_pending, ``graph_chain_protected]
 
 end NA.Vpn.G
